@@ -260,7 +260,16 @@ def ak_probe_worker(job):
     vector.register_awkward()
     r = Cm.rng(seed, "akprobe")
     rows = [Cm.cart_to_stored(sig, p) for p in Cm.strata_points(len(sig) + 1, r, n_random=3)[-6:]]
-    arr = ak.unflatten(Cm.ak_array("m", sig, rows), [2, 0, 3, 1])
+    if seed % 2 == 0:
+        arr = ak.unflatten(Cm.ak_array("m", sig, rows), [2, 0, 3, 1])
+    else:
+        # records that carry the momentum SPELLING as the field name (ak.zip(..., with_name=...)): the lowering picks a getter per spelling
+        import numpy
+        spell = {"x": ["x", "px"], "y": ["y", "py"], "rho": ["rho", "pt"], "phi": ["phi"], "z": ["z", "pz"], "theta": ["theta"], "eta": ["eta"],
+                 "t": ["t", "E", "e", "energy"], "tau": ["tau", "M", "m", "mass"]}
+        names = [r.choice(spell[c]) for c in Cm.signames(sig)]
+        arr = ak.unflatten(ak.zip({nm: numpy.array([row[j] for row in rows]) for j, nm in enumerate(names)}, with_name="Momentum4D"), [2, 0, 3, 1])
+        sig = list(sig) + names
     ns = {}
     exec(src, ns)
     f = ns["f"]
@@ -387,7 +396,8 @@ def correspondence(ctx):
                 head = src.split("return (", 1)[0]
                 single += [(head + f"return {e}\n", toks) for e in split_top(body)]
         results += pool.map(probe_worker, single, chunksize=1) if single else []
-        akjobs = [(src, r.choice(C.SIG4), ctx.seed + k) for k, src in enumerate(AK_PROBES)]
+        akjobs = [(src, r.choice(C.SIG4), 2 * (ctx.seed + k)) for k, src in enumerate(AK_PROBES)] + \
+                 [(src, r.choice(C.SIG4), 2 * (ctx.seed + 7 * k + j) + 1) for k, src in enumerate(AK_PROBES) for j in range(2 if ctx.tier == "quick" else 8)]
         akres = pool.map(ak_probe_worker, akjobs)
     for src, sig, interp, comp in akres:
         if not same(interp, comp):
